@@ -60,7 +60,8 @@ RULE = ("dense / sparse / Kruskal / Tucker / sum holders of small-integer data o
         "weight pattern); "
         "plus a malformed stream (wrong sizes, contradictory mode designations, a mode listed twice, a mode index that "
         "is not a mode, factor lists of the wrong length). Each implementation result is compared with the Lean spec value (sum over indices) and with "
-        "the Lean model. non-trivial = accepted and operand has a non-zero entry; distinct = distinct case hash")
+        "the Lean model. ttv with ONE bare ndarray multiplicand on every mode (singleton modes: length-1 vectors) of every representation, "
+        "dims / exclude_dims / nothing designated (family ttv_bare_vector). non-trivial = accepted and operand has a non-zero entry; distinct = distinct case hash")
 ASSUMPTIONS = [
     "values are small integers, so every float operation of the implementation is exact (dtypes family: the "
     "exact result fits 53 bits, or the comparison allows 1e-12 relative)",
